@@ -412,3 +412,134 @@ def r19n(ctx):
                                f"coordinate to other cells than its siblings — e.g. a range clipped to the declared width loses the right end of rows that are wider")
     if n < 2:
         raise AnalysisError(f"R19n: only {n} translated bound(s) passed on to a row call found")
+
+
+def r06l(ctx):
+    """The type written with a new value is chosen for that value.
+
+    `set_value_and_type(value, value_type=None)` deduces the ODF type from the Python value; a caller may name the type itself.  A setter that
+    takes the type *from the element it is about to overwrite* applies the old declaration to a value of any kind: a text stored in a
+    percentage field is written as `office:value-type="percentage"` with a non-numeric `office:value`, which no reader accepts.  Rule: in
+    every method with a `value` parameter, a `value_type=` handed to set_value_and_type is absent, a constant, or a parameter of the method
+    (the caller's choice) — never a local read from the element's own attributes.
+    """
+    repo = ctx.repo
+    ctx.rule("R06l", "a value_type passed to set_value_and_type is the caller's parameter or a constant, never read back from the element being overwritten", floor=6)
+    n = 0
+    for f in repo.all_funcs():
+        params = {a.arg for a in f.all_params()}
+        if "value" not in params:
+            continue
+        for c in walk_no_nested(f.node):
+            if not (isinstance(c, ast.Call) and call_name(c) == "set_value_and_type"):
+                continue
+            n += 1
+            vt = [k.value for k in c.keywords if k.arg == "value_type"]
+            bad = None
+            for v in vt:
+                for x in ast.walk(v):
+                    if isinstance(x, ast.Call) and call_name(x).startswith("get_attribute"):
+                        bad = x
+                    if isinstance(x, ast.Name) and x.id not in params:
+                        for a in walk_no_nested(f.node):
+                            tg = a.targets if isinstance(a, ast.Assign) else [a.target] if isinstance(a, ast.AnnAssign) and a.value is not None else []
+                            if any(isinstance(y, ast.Name) and y.id == x.id and isinstance(y.ctx, ast.Store) for t in tg for y in ast.walk(t)):
+                                if any(isinstance(z, ast.Call) and call_name(z).startswith("get_attribute") for z in ast.walk(a.value)):
+                                    bad = a
+            ctx.instance("R06l", f"{f.file}:{f.ident}", norm(c, 50), ok=bad is None, nontrivial=bool(vt), line=c.lineno)
+            if bad is not None:
+                ctx.report("R06l", f, c, norm(bad, 50),
+                           f"{f.ident} hands set_value_and_type a value_type read from the element itself (`{norm(bad, 50)}`): the old declaration is written over a new value "
+                           f"of any Python type — a str, bool or date stored under 'percentage'/'currency' does not read back")
+    if n < 6:
+        raise AnalysisError(f"R06l: only {n} set_value_and_type call(s) in methods with a value parameter")
+
+
+def r16m(ctx):
+    """A text node is text or tail as lxml says, not as its characters suggest.
+
+    `Element.replace()` writes a substitution into `container.text` or `container.tail` according to `EText.is_text()` / `is_tail()`.  lxml's
+    smart strings know which one they are; a classification recomputed from the characters (`parent.text == string`) takes a tail that
+    happens to equal the text of its element for the text: the replacement lands in the wrong slot while the count includes it.  Rule:
+    EText.__init__ takes both flags from the `is_text` / `is_tail` attributes of the lxml result it is given.
+    """
+    repo = ctx.repo
+    ctx.rule("R16m", "EText takes is_text/is_tail from the lxml result itself", floor=2)
+    f = repo.func("EText.__init__")
+    params = [a.arg for a in f.all_params() if a.arg != "self"]
+    n = 0
+    for a in walk_no_nested(f.node):
+        if not (isinstance(a, ast.Assign) and len(a.targets) == 1 and isinstance(a.targets[0], ast.Attribute) and isinstance(a.targets[0].value, ast.Name) and a.targets[0].value.id == "self"):
+            continue
+        for flag in ("is_text", "is_tail"):
+            if a.targets[0].attr.endswith(flag):
+                n += 1
+                v = a.value
+                ok = isinstance(v, ast.Attribute) and v.attr == flag and isinstance(v.value, ast.Name) and v.value.id == params[0]
+                ctx.instance("R16m", f"{f.file}:{f.ident}", norm(a, 50), ok=ok, nontrivial=True, line=a.lineno)
+                if not ok:
+                    ctx.report("R16m", f, a, norm(a, 50),
+                               f"EText computes `{flag}` itself (`{norm(v, 50)}`) instead of taking lxml's: a tail equal to the text of the element it follows is classified as "
+                               f"text, so replace() writes the substitution over the element's text and leaves the tail — counted, not replaced")
+    if n < 2:
+        raise AnalysisError(f"R16m: only {n} flag assignment(s) in EText.__init__")
+
+
+_PATH_CALLS_OK = {"endswith", "startswith", "PurePath", "PurePosixPath", "as_posix", "str", "len", "isinstance"}
+
+
+def r03o(ctx):
+    """A member name is normalised as a path and otherwise left alone.
+
+    Every reader of a package files its members under `normalize_path(name)` and every writer writes the filed names back.  PurePath
+    normalisation is idempotent and is what the pinned tests expect; any *character* rewriting of the name (replace, lower, strip, translate,
+    a regular expression) files a member under a name it does not have: the original member is lost on save and another one appears.  Rule:
+    normalize_path calls nothing but the path constructors and the tests of today's tree.
+    """
+    repo = ctx.repo
+    ctx.rule("R03o", "normalize_path rewrites no characters of a member name (only PurePath normalisation)", floor=2)
+    f = repo.func("container:normalize_path")
+    n = 0
+    for c in walk_no_nested(f.node):
+        if isinstance(c, ast.Call):
+            n += 1
+            ok = call_name(c) in _PATH_CALLS_OK
+            ctx.instance("R03o", f"{f.file}:{f.ident}", norm(c, 40), ok=ok, nontrivial=True, line=c.lineno)
+            if not ok:
+                ctx.report("R03o", f, c, norm(c, 50),
+                           f"normalize_path applies `{norm(c, 40)}` to the member name: a member whose name holds those characters is filed (and saved) under another name — "
+                           f"the part the archive contained is lost and one it did not contain appears")
+    if n < 2:
+        raise AnalysisError(f"R03o: only {n} call(s) in normalize_path")
+
+
+def r14m(ctx):
+    """A name handed on to a lookup is the string, not the decoded property.
+
+    The `name` properties of the named elements go through the generic getter, which answers the strings "true"/"false" with booleans; the
+    query builder then reads True as "any name" and False as "no filter".  A function that looks one element up and passes *its* `.name` on to
+    the next lookup therefore finds the wrong partner for exactly those names.  Rule: no `name=` / `*_name=` keyword argument of a call in
+    the package is an attribute read `<other element>.name` (on anything but `self`, whose table-name use R19 governs).
+    """
+    repo = ctx.repo
+    ctx.rule("R14m", "no lookup is given `<element>.name` (a decoded property) as the name to search for", floor=30)
+    n = 0
+    for f in repo.all_funcs():
+        for c in walk_no_nested(f.node):
+            if not isinstance(c, ast.Call):
+                continue
+            for k in c.keywords:
+                if k.arg is None or not (k.arg == "name" or k.arg.endswith("_name")):
+                    continue
+                if not call_name(c).startswith(("get_", "_get", "remove_", "delete_", "_filtered")):
+                    continue
+                n += 1
+                v = k.value
+                bad = isinstance(v, ast.Attribute) and v.attr == "name" and not (isinstance(v.value, ast.Name) and v.value.id == "self")
+                ctx.instance("R14m", f"{f.file}:{f.ident}", norm(c, 50), ok=not bad, nontrivial=bad, line=c.lineno)
+                if bad:
+                    ctx.report("R14m", f, c, norm(c, 50),
+                               f"{f.ident} searches with `{k.arg}={norm(v, 30)}`: the property getter decodes the names 'true' and 'false' to booleans, which the query builder reads "
+                               f"as 'any name' / 'no filter' — for those names another element is found")
+    if n < 30:
+        raise AnalysisError(f"R14m: only {n} lookup call(s) with a name keyword found")
